@@ -8,6 +8,7 @@ coq/C18/Service.v, constant and echo decisions returning generated values, TCK r
 import base64
 import http.client
 import json
+import re
 import os
 import socket
 import subprocess
@@ -601,6 +602,15 @@ def request_alphabet():
     for k in (11, 12, 13, 14, 99):
         A.append(('eval%d' % k, 'QEvaluate %d true' % k, 'POST', '/evaluate/m%d/dec' % k, '{x: 1}', 'text/plain', 'op'))
         A.append(('tck%d' % k, 'QTck (Some %d) true (Some true)' % k, 'POST', '/tck/evaluate', jd({'model': 'm%d' % k, 'invocable': 'dec', 'input': []}), 'application/json', 'op'))
+    # ordinary requests that are merely LARGE (well under the 4 MB limit the service sets for JSON bodies): they behave like the small ones
+    # (seeded change C18_f: the limit silently fell back to the framework's 32 KiB)
+    pad = lambda x, n: x.replace('</definitions>', '<!-- ' + 'pad ' * (n // 4) + '--></definitions>')
+    A.append(('add1-large', 'QAdd (CModel %s)' % c17.coq_mdl(1), 'POST', '/definitions/add', jd({'content': b64(pad(c17.XMLS[1], 60 * 1024))}), 'application/json', 'op'))
+    A.append(('replace3-large', 'QReplace (CModel %s)' % c17.coq_mdl(3), 'POST', '/definitions/replace', jd({'content': b64(pad(c17.XMLS[3], 1024 * 1024))}), 'application/json', 'op'))
+    A.append(('tck11-large', 'QTck (Some 11) true (Some true)', 'POST', '/tck/evaluate',
+              jd({'model': 'm11', 'invocable': 'dec', 'input': [{'name': 'x', 'value': {'simple': {'type': 'xsd:string', 'text': 'A' * 40000, 'isNil': False}}},
+                                                                {'name': 'y', 'value': {'list': {'items': [{'simple': {'type': 'xsd:decimal', 'text': str(k), 'isNil': False}} for k in range(3000)], 'isNil': False}}}]}),
+              'application/json', 'op'))
     # requests that never reach the workspace
     A.append(('eval-bad-input', 'QEvaluate 11 false', 'POST', '/evaluate/m11/dec', '{x: ', 'text/plain', 'fault'))
     A.append(('eval-empty-input', 'QEvaluate 11 false', 'POST', '/evaluate/m11/dec', '', 'text/plain', 'fault'))
@@ -739,7 +749,7 @@ def run_sequences(ctx, svc, seqs, alphabet):
                               impl=jd(plain_json(got[1][1]))[:400], model=jd(exp[1]))
                 continue
             if rep.name == 'RAdded' or (rep.name == 'RStatus' and rep.args[0] == 2):
-                mi = int(name[-1])
+                mi = int(re.search(r'(\d)', name).group(1))      # add3, replace4, add1-large, replace3-large
                 stored[(c17.MODELS[mi][0], c17.MODELS[mi][1])] = mi
         if len(ctx.samples) < 2 and len(s) >= 8:
             ctx.sample({'sequence': names, 'model_replies': [str(r) for r, _ in tr]})
